@@ -34,6 +34,9 @@ type crashHist struct {
 	// verification (the schema of internal/persistence/sql at the pinned commit, one row for l1 holding an acknowledged checkpoint of
 	// size 1), not by the tree. The kill window then includes start-up (Init), where an upgrade of the file would happen.
 	Legacy bool `json:"legacy,omitempty"`
+	// BusyCommit: the COMMIT of step BusyCommit-1 fails with SQLITE_BUSY (another process holds a lock on the file past the busy timeout)
+	// and the driver has rolled back; the run goes on and the process is killed at the end. Whatever was acknowledged must be in force.
+	BusyCommit int `json:"busycommit,omitempty"`
 }
 
 // pinnedSchema is the table the pinned release creates (internal/persistence/sql Init at the commit under verification).
@@ -137,6 +140,12 @@ func crashChild(args []string) error {
 			continue
 		}
 		c := w.Concretise(s.Log, *s.Req, prev)
+		if h.BusyCommit == k+1 {
+			driverErrSeq.mu.Lock()
+			forcedDriverErr["commit"] = errSQLiteBusy
+			driverErrSeq.mu.Unlock()
+			hook.arm("commit", 1)
+		}
 		say("BEGIN %d", k)
 		ret, uerr := wit.Update(ctx, c.LogID, c.OldSize, c.CP, c.Proof)
 		v := verdict(uerr)
